@@ -12,7 +12,8 @@ from .. import writerules as W
 CP = "atsim.potentials.config._config_parser"
 
 EXPLANATION = (
-    "_TabulationCutoff._init_cutoff is a decision function over presence and sign of (nr, dr, cutoff). Every combination of "
+    "The grid options of [Tabulation] are read through a decision function over presence and sign of (nr, dr, cutoff); it is "
+    "reached the way potable reaches it: ConfigParser(<file text>).tabulation on the configparser model. Every combination of "
     "{absent, 0, negative, positive} for the three options (64 cases, for the separation and the density instance) is "
     "evaluated by the abstract evaluator with positive values kept symbolic, and outcome (raise a configuration error / "
     "resulting (nr, cutoff) as normal forms) is compared with the table stated in the property. The quotient-to-count "
@@ -74,37 +75,50 @@ def run(chk):
     chk.assume("floating-point rounding of cutoff/dr is bounded by 4 ulp of the quotient (quotients up to 2e4)")
 
 
+def _grid_site(P):
+    ci = P.classes.get(CP + "._TabulationCutoff") if hasattr(P, "classes") else None
+    try:
+        ci = P.cls(CP, "_TabulationSection")
+        return "%s:%d %s" % (ci.module.relpath, ci.node.lineno, ci.name)
+    except Exception:
+        return P.module(CP).relpath + " [Tabulation] grid options"
+
+
+def build_section(P, text, assume=None):
+    """ConfigParser(<text>).tabulation evaluated on the configparser model (the public route by which potable reads
+    nr/dr/cutoff); option values written '@name' stand for arbitrary numbers"""
+    from .. import cfgmodel as M
+    I = F.make_interp(P)
+    M.install_rawconfigparser(I)
+    if assume is not None:
+        I.assumption_fns.append(assume)
+    cp = I.instantiate(P.cls(CP, "ConfigParser"), [PyObjV(M.TextFile(text))], {}, None)
+    return I, I.getattr(cp, "tabulation")
+
+
 def decision_table(chk, P):
-    cls = P.cls(CP, "_TabulationCutoff")
     cfg = P.cls("atsim.potentials.config._common", "ConfigurationException")
-    site = cls.lookup("_init_cutoff").site()
+    site = _grid_site(P)
     ncase = 0
-    for inst_name, names in (("separation", ("nr", "dr", "cutoff")), ("density", ("nrho", "drho", "cutoff_rho"))):
+    for inst_name, names, props in (("separation", ("nr", "dr", "cutoff"), ("nr", "cutoff")),
+                                    ("density", ("nrho", "drho", "cutoff_rho"), ("nrho", "cutoff_rho"))):
         for combo in itertools.product(CLASSES, repeat=3):
-            I = F.make_interp(P)
-            I.assumption_fns.append(positive)
-            given = {}
+            lines = ["[Tabulation]", "target : GULP"]
             for nm, c in zip(names, combo):
                 if c == "zero":
-                    given[nm] = Num(ep.const(0))
+                    lines.append("%s : 0" % nm)
                 elif c == "negative":
-                    given[nm] = Num(ep.const(-1))
+                    lines.append("%s : -1" % nm)
                 elif c == "positive":
-                    given[nm] = Num(ep.sym(nm), inexact=(nm != names[0]))
-
-            def gon(i, fv, a, k, n, given=given):
-                return given.get(a[0].v, NONE)
-            I.hooks[CP + ":_get_or_none"] = gon
-            if inst_name == "separation":
-                tc = I.instantiate(cls, [Const("R_Cutoff")], {}, None)
-            else:
-                tc = I.instantiate(cls, [Const("Density_Cutoff"), Const(names[0]), Const(names[1]), Const(names[2])], {}, None)
+                    lines.append("%s : @%s" % (nm, nm))
+            I = None
             try:
-                res = W.run_method(I, tc, "_init_cutoff", [W.param("section")])
+                I, tab = build_section(P, "\n".join(lines) + "\n", positive)
+                res = ListV([I.getattr(tab, props[0]), I.getattr(tab, props[1])], "tuple")
                 outcome = ("ok", res)
             except RaiseSignal as e:
                 outcome = ("raise", e.exc)
-            if I.raises and outcome[0] == "ok":
+            if I is not None and I.raises and outcome[0] == "ok":
                 # a raise under a symbolic condition that the assumptions did not decide
                 outcome = ("undecided", I.raises)
             nr_c, dr_c, cut_c = combo
@@ -221,12 +235,8 @@ class ParserModel(object):
 
 
 def section_binding(chk, P):
-    I = F.make_interp(P)
-    cls = P.cls(CP, "_TabulationSection")
-    sec = PyObjV(Section({"nr": Const("21"), "cutoff": Const("5.0"), "nrho": Const("11"), "drho": Const("0.5"), "target": Const("GULP")}))
-    cp = PyObjV(ParserModel(sec))
-    tab = I.instantiate(cls, [cp], {}, None)
-    site = cls.lookup("_init_cutoff").site()
+    site = _grid_site(P)
+    I, tab = build_section(P, "[Tabulation]\ntarget : GULP\nnr : 21\ncutoff : 5.0\nnrho : 11\ndrho : 0.5\n")
     for attr, want in (("nr", 21), ("cutoff", 5), ("nrho", 11), ("cutoff_rho", 5)):
         v = I.getattr(tab, attr)
         ok = isinstance(v, Num) and v.const() == want
